@@ -24,6 +24,8 @@
  *   xmit2 <szx> <bodyLen> <seed> <mtu2> <num.szx,…>        coap_add_data_large_response + coap_handle_request_send_block sequence (server, Block2)
  *   xmit1 <cszx|-> <bodyLen> <seed> <mtu> <code.num.szx|code,…>   coap_add_data_large_request + coap_send + coap_handle_response_send_block sequence (client, Block1)
  *
+ *   q408 / qenc / qset                         RFC 9177 (Q-Block) ops of C02, described at do_q408 / do_qenc / do_qset
+ *
  * Layer B (H-sim, sim_core.h): a real client and a real server context, virtual clock, scripted network:
  *
  *   xfer <dir> <bodyLen> <seed> <cszx> <sszx> <mtu> <con> <single> <schedule> [<bodyLen2> <seed2>]
@@ -818,6 +820,191 @@ out:
   free(body);
 }
 
+/* q408 <szx> <bodyLen> <seed> <maxPayloads> <fmt|-> <type> <hex;hex;…> : the CLIENT sending a body with Q-Block1 (RFC 9177) and the
+ * 4.08 "missing blocks" responses of a hostile server (C02).  The application PUTs (NON, 4-byte token, Uri-Path "b", Q-Block1
+ * (0,0,szx)) with coap_add_data_large_request() and coap_send() on a session that has Q-Block negotiated (first payload set goes
+ * out: `tx=<n>`; `lg=<blk_size>`).  Every item is the PAYLOAD of a 4.08 response (token of the datagram sent last, Content-Format
+ * <fmt> — 272 = application/missing-blocks+cbor-seq —, message type <type>: 1 = NON), placed so that the first byte behind it is
+ * inaccessible for ASan, handed to the real coap_handle_response_send_block(); per item: i (returned 1) / f (returned 0: the
+ * application sees the response) / F (the same with the code rewritten to 5.00), `:` the datagrams transmitted in reaction
+ * (b<num>.<m>.<szx>:<len>:<hash> joined by `+`, or `-`), `/<blk_size>` of the lg_xmit or `/-` if it is gone. */
+#include <sanitizer/asan_interface.h>
+static char q_buf[4096]; static size_t q_len; static unsigned q_ntx;
+static void q_on_tx(const sim_dgram_t *d) {
+  coap_pdu_t *p = coap_pdu_init(0, 0, 0, 4096);
+  q_ntx++;
+  if (p && coap_pdu_parse(COAP_PROTO_UDP, d->data, d->len, p)) {
+    coap_block_b_t b;
+    size_t l = 0; const uint8_t *dd = NULL;
+    coap_get_data(p, &l, &dd);
+    if (q_len + 64 < sizeof(q_buf)) {
+      if (coap_get_block_b(NULL, p, COAP_OPTION_Q_BLOCK1, &b))
+        q_len += (size_t)snprintf(q_buf + q_len, sizeof(q_buf) - q_len, "%sb%u.%u.%u:%zu:%08x", q_len ? "+" : "", b.num, b.m, b.szx, l, sim_fnv(dd, l));
+      else
+        q_len += (size_t)snprintf(q_buf + q_len, sizeof(q_buf) - q_len, "%sn:%zu:%08x", q_len ? "+" : "", l, sim_fnv(dd, l));
+    }
+    x1_tkl = d->tkl; memcpy(x1_tok, d->token, d->tkl);
+  } else if (q_len + 16 < sizeof(q_buf))
+    q_len += (size_t)snprintf(q_buf + q_len, sizeof(q_buf) - q_len, "%sunparsable", q_len ? "+" : "");
+  if (p) coap_delete_pdu(p);
+}
+
+static void do_q408(unsigned szx, size_t bodyLen, unsigned seed, unsigned maxPay, int fmt, int type, char *seq) {
+  static const uint8_t tok[4] = {0xa1, 0xa1, 0xa1, 0xa1};
+  if (szx > 6 || bodyLen <= ((size_t)16 << szx) || maxPay < 1 || maxPay > 255 || type < 0 || type > 3 || fmt > 65535) { printf("bad-op"); return; }
+  sim_reset();
+  sim_log_enabled = 0;
+  uint8_t *body = mk_body(bodyLen, seed), buf[4];
+  coap_context_t *ctx = sim_new_context();
+  coap_session_t *s = sim_new_client(ctx, 5683);
+  coap_pdu_t *p;
+  char *tk, *save = NULL;
+  int k = 0;
+  coap_context_set_block_mode(ctx, COAP_BLOCK_USE_LIBCOAP | COAP_BLOCK_SINGLE_BODY);
+  s->block_mode = ctx->block_mode | COAP_BLOCK_HAS_Q_BLOCK;       /* as after a successful Q-Block probe */
+  coap_session_set_max_payloads(s, (uint16_t)maxPay);
+  sim_tx_hook = q_on_tx;
+  q_len = 0; q_buf[0] = 0; q_ntx = 0; x1_tkl = 0;
+  rel_count = 0;
+  p = coap_new_pdu(COAP_MESSAGE_NON, COAP_REQUEST_CODE_PUT, s);
+  coap_add_token(p, 4, tok);
+  coap_add_option(p, COAP_OPTION_URI_PATH, 1, (const uint8_t *)"b");
+  coap_add_option(p, COAP_OPTION_Q_BLOCK1, coap_encode_var_safe(buf, sizeof(buf), szx), buf);
+  if (!coap_add_data_large_request(s, p, bodyLen, body, rel_cb, NULL)) {
+    printf("fail");
+    coap_delete_pdu(p);
+    goto out;
+  }
+  if (coap_send(s, p) == COAP_INVALID_MID) { printf("send-fail"); goto out; }
+  printf("tx=%u lg=%d", q_ntx, s->lg_xmit ? (int)s->lg_xmit->blk_size : -1);
+  for (tk = strcmp(seq, "-") ? strtok_r(seq, ";", &save) : NULL; tk; tk = strtok_r(NULL, ";", &save), k++) {
+    size_t len; uint8_t *d = h_unhex(tk, &len);
+    int ret;
+    coap_pdu_t *rcvd;
+    if (!d || len > 1024) { printf(" bad-op"); free(d); break; }
+    rcvd = coap_pdu_init((coap_pdu_type_t)type, COAP_RESPONSE_CODE(408), (coap_mid_t)(300 + k), 32 + len);
+    coap_add_token(rcvd, x1_tkl, x1_tok);
+    if (fmt >= 0) coap_add_option(rcvd, COAP_OPTION_CONTENT_FORMAT, coap_encode_var_safe(buf, sizeof(buf), (unsigned)fmt), buf);
+    if (len) coap_add_data(rcvd, len, d);
+    {
+      uint8_t *base = rcvd->token - rcvd->max_hdr_size;
+      size_t real = malloc_usable_size(base);
+      if (real > (size_t)rcvd->max_hdr_size + rcvd->used_size)
+        ASAN_POISON_MEMORY_REGION(rcvd->token + rcvd->used_size, real - rcvd->max_hdr_size - rcvd->used_size);
+    }
+    q_len = 0; q_buf[0] = 0;
+    coap_lock_lock(ctx, break);
+    ret = coap_handle_response_send_block(s, NULL, rcvd);
+    coap_lock_unlock(ctx);
+    fputc(k ? ',' : ' ', stdout);
+    printf("%s:%s", ret == 1 ? "i" : rcvd->code == COAP_RESPONSE_CODE(500) ? "F" : "f", q_len ? q_buf : "-");
+    if (s->lg_xmit) printf("/%u", (unsigned)s->lg_xmit->blk_size);
+    else printf("/-");
+    {
+      uint8_t *base = rcvd->token - rcvd->max_hdr_size;
+      ASAN_UNPOISON_MEMORY_REGION(base, malloc_usable_size(base));
+    }
+    coap_delete_pdu(rcvd);
+    free(d);
+  }
+out:
+  sim_tx_hook = NULL;
+  sim_free_all(0);
+  sim_log_enabled = 1;
+  printf(" rel=%d", rel_count);
+  free(body);
+}
+
+/* qenc <n,n,…> : the SERVER's add_408_block() for every number on one PDU: the payload bytes, ` rej@<k>` when the k-th is refused */
+static void do_qenc(char *seq) {
+  coap_pdu_t *p = coap_pdu_init(COAP_MESSAGE_NON, COAP_RESPONSE_CODE(408), 1, 8192);
+  char *tk, *save = NULL;
+  int k = 0, rej = -1;
+  size_t start;
+  if (!p) { printf("nopdu"); return; }
+  p->token[p->used_size++] = COAP_PAYLOAD_START;
+  start = p->used_size;
+  for (tk = strcmp(seq, "-") ? strtok_r(seq, ",", &save) : NULL; tk; tk = strtok_r(NULL, ",", &save), k++) {
+    unsigned long v = strtoul(tk, 0, 10);
+    if (v >= 0x80000000UL) { printf("bad-op"); coap_delete_pdu(p); return; }
+    if (!add_408_block(p, (int)v)) { rej = k; break; }
+  }
+  h_puthex(stdout, p->token + start, p->used_size - start);
+  if (rej >= 0) printf(" rej@%d", rej);
+  coap_delete_pdu(p);
+}
+
+/* qset <maxPayloads> <processing> <n,n,…> : the CLIENT's Q-Block2 bookkeeping: update_received_blocks() for every number, then
+ * check_all_blocks_in_for_payload_set() / check_any_blocks_next_payload_set() with that MAX_PAYLOADS and
+ * processing_payload_set, and the blocks the real coap_request_missing_q_block2() asks for again (total_len 0: no trailing
+ * blocks; MAX_PAYLOADS 65535 for that call: one payload set) = the gap walk */
+static char qs_buf[8192]; static size_t qs_len;
+static void qs_on_tx(const sim_dgram_t *d) {
+  coap_pdu_t *p = coap_pdu_init(0, 0, 0, 8192);
+  if (p && coap_pdu_parse(COAP_PROTO_UDP, d->data, d->len, p)) {
+    coap_opt_iterator_t oi;
+    coap_opt_t *o;
+    coap_option_iterator_init(p, &oi, COAP_OPT_ALL);
+    while ((o = coap_option_next(&oi)))
+      if (oi.number == COAP_OPTION_Q_BLOCK2 && qs_len + 16 < sizeof(qs_buf)) {
+        unsigned v = coap_decode_var_bytes(coap_opt_value(o), coap_opt_length(o));
+        qs_len += (size_t)snprintf(qs_buf + qs_len, sizeof(qs_buf) - qs_len, "%s%u", qs_len ? "," : "", v >> 4);
+        if (v & 0xf) qs_len += (size_t)snprintf(qs_buf + qs_len, sizeof(qs_buf) - qs_len, "!%u", v & 0xf);
+      }
+  }
+  if (p) coap_delete_pdu(p);
+}
+static void do_qset(unsigned maxPay, unsigned proc, char *seq) {
+  static const uint8_t tok[2] = {0xb1, 0xb2};
+  if (maxPay < 1 || maxPay > 65535 || proc >= 0x80000000U) { printf("bad-op"); return; }
+  sim_reset();
+  sim_log_enabled = 0;
+  coap_context_t *ctx = sim_new_context();
+  coap_session_t *s = sim_new_client(ctx, 5683);
+  coap_pdu_t *p;
+  coap_lg_crcv_t *lg;
+  char *tk, *save = NULL;
+  coap_context_set_block_mode(ctx, COAP_BLOCK_USE_LIBCOAP | COAP_BLOCK_SINGLE_BODY);
+  s->block_mode = ctx->block_mode | COAP_BLOCK_HAS_Q_BLOCK;
+  coap_session_set_mtu(s, 4000);
+  p = coap_new_pdu(COAP_MESSAGE_NON, COAP_REQUEST_CODE_GET, s);
+  coap_add_token(p, 2, tok);
+  coap_add_option(p, COAP_OPTION_URI_PATH, 1, (const uint8_t *)"L");
+  coap_lock_lock(ctx, return);
+  lg = coap_block_new_lg_crcv(s, p, NULL);
+  coap_lock_unlock(ctx);
+  if (!lg) { printf("nolg"); coap_delete_pdu(p); goto out; }
+  memset(&lg->rec_blocks, 0, sizeof(lg->rec_blocks));
+  for (tk = strcmp(seq, "-") ? strtok_r(seq, ",", &save) : NULL; tk; tk = strtok_r(NULL, ",", &save)) {
+    unsigned long v = strtoul(tk, 0, 10);
+    if (v >= (1UL << 20)) { printf("bad-op"); goto del; }
+    update_received_blocks(&lg->rec_blocks, (uint32_t)v);
+  }
+  printf("ranges="); dump_ranges(&lg->rec_blocks);
+  lg->rec_blocks.processing_payload_set = proc;
+  coap_session_set_max_payloads(s, (uint16_t)maxPay);
+  printf(" all=%d next=%d", check_all_blocks_in_for_payload_set(s, &lg->rec_blocks), check_any_blocks_next_payload_set(s, &lg->rec_blocks));
+  coap_session_set_max_payloads(s, 65535);
+  lg->block_option = COAP_OPTION_Q_BLOCK2;
+  lg->szx = 0; lg->total_len = 0; lg->last_type = COAP_MESSAGE_NON;
+  qs_len = 0; qs_buf[0] = 0;
+  sim_tx_hook = qs_on_tx;
+  coap_lock_lock(ctx, goto del);
+  coap_request_missing_q_block2(s, lg);
+  coap_lock_unlock(ctx);
+  sim_tx_hook = NULL;
+  printf(" gaps=%s", qs_len ? qs_buf : "-");
+del:
+  coap_lock_lock(ctx, goto out);
+  coap_block_delete_lg_crcv(s, lg);
+  coap_lock_unlock(ctx);
+  coap_delete_pdu(p);
+out:
+  sim_tx_hook = NULL;
+  sim_free_all(0);
+  sim_log_enabled = 1;
+}
+
 #include "block_sim.h"
 
 static void step1(char *line) {
@@ -868,6 +1055,13 @@ static void step1(char *line) {
     do_xmit2((unsigned)strtoul(w[1], 0, 10), strtoull(w[2], 0, 10), (unsigned)strtoul(w[3], 0, 10), m1, m2, w[5]);
   } else if (!strcmp(w[0], "xmit1") && n == 6) {
     do_xmit1(strcmp(w[1], "-") ? atoi(w[1]) : -1, strtoull(w[2], 0, 10), (unsigned)strtoul(w[3], 0, 10), (unsigned)strtoul(w[4], 0, 10), w[5]);
+  } else if (!strcmp(w[0], "q408") && n == 8) {
+    do_q408((unsigned)strtoul(w[1], 0, 10), strtoull(w[2], 0, 10), (unsigned)strtoul(w[3], 0, 10), (unsigned)strtoul(w[4], 0, 10),
+            strcmp(w[5], "-") ? atoi(w[5]) : -1, atoi(w[6]), w[7]);
+  } else if (!strcmp(w[0], "qenc") && n == 2) {
+    do_qenc(w[1]);
+  } else if (!strcmp(w[0], "qset") && n == 4) {
+    do_qset((unsigned)strtoul(w[1], 0, 10), (unsigned)strtoul(w[2], 0, 10), w[3]);
   } else if (!strcmp(w[0], "xfer")) {
     do_xfer(n, w);
   } else
@@ -881,7 +1075,7 @@ static char *cap_end(void) { fclose(stdout); stdout = h_saved; return h_cap; }
 
 static void step(char *line) {
   long live0 = h_live;
-  if (!strncmp(line, "crcv ", 5) || !strncmp(line, "crcvs ", 6) || !strncmp(line, "srcv", 4)) {
+  if (!strncmp(line, "crcv ", 5) || !strncmp(line, "crcvs ", 6) || !strncmp(line, "srcv", 4) || !strncmp(line, "q408 ", 5)) {
     /* whatever the receiving application is handed must not depend on bytes nobody wrote */
     char *copy = strdup(line), *a, *b;
     h_poison = 0xA5; cap_begin(); step1(line); a = cap_end();
